@@ -4,16 +4,6 @@ From Coq Require Import List Arith Bool PeanoNat Permutation Lia.
 From TV Require Import Common.ObsCore C08.Model C08.Law C08.Proofs C16.Model.
 Import ListNotations.
 
-Lemma visits_rank t rank h o fo g : ranked rank h -> forall x, visits t h g x o fo = true -> rank x <= rank o.
-Proof.
-  intros R. induction g as [fs n e cs IH] using graph_ind'. intros x. cbn [visits]. rewrite Forall_forall in IH.
-  intros A. apply existsb_exists in A. destruct A as [f [Hf A]]. apply andb_true_iff in A. destruct A as [_ A].
-  apply orb_true_iff in A. destruct A as [A|A].
-  - apply slot_eqb_true in A. destruct A as [-> _]. lia.
-  - apply existsb_exists in A. destruct A as [y [Hy A]]. apply existsb_exists in A. destruct A as [c [Hc A]].
-    apply (IH c Hc y) in A. pose proof (R x f y Hy). lia.
-Qed.
-
 Lemma matched_visits t h o fo g : forall x, matched t h g x o fo = true -> visits t h g x o fo = true.
 Proof.
   induction g as [fs n e cs IH] using graph_ind'. intros x. cbn [matched visits]. rewrite Forall_forall in IH.
@@ -28,15 +18,6 @@ Qed.
 
 (* on a ranked heap (a DAG, in particular a tree) whose rank also dominates the new content of
    the slot, the change is edge-acyclic for every set of registrations *)
-Lemma ranked_edge_acyclic_lemma t rank h rs o fo news :
-  fo <> TA -> ranked rank h -> (forall y, In y news -> rank o < rank y) -> edge_acyclic t h rs o fo news.
-Proof.
-  intros NT R N. split; [exact NT|]. intros kc _ y Hy.
-  destruct (visits t h (snd kc) y o fo) eqn:V; [exfalso|reflexivity].
-  apply (visits_rank t rank h o fo (snd kc) R) in V.
-  destruct Hy as [Hy|Hy]; [pose proof (R o fo y Hy)|pose proof (N y Hy)]; lia.
-Qed.
-
 (* ---------- '.' reports, ':' is silent ---------- *)
 Lemma matched_root_slot t rank h f n e cs r f0 :
   ranked rank h -> t r f = true -> matched t h (G [f] n e cs) r r f0 = n && Nat.eqb f f0.
